@@ -7,7 +7,7 @@ from the source, not frozen.
 import ast
 
 from ..core.astutil import (u, call_name, calls, index_elts, const, conjuncts, disjuncts, compare_triples,
-                            norm_compare, iter_stmts, parent_map, walk_ordered, strip_docstring, dotted)
+                            norm_compare, iter_stmts, parent_map, walk_ordered, strip_docstring, dotted, assign_pairs)
 from ..core.index import AnalysisError
 
 MOD = "distance3d.aabb_tree"
@@ -281,6 +281,11 @@ def _classify_test(test, C, nodes_name, nodevar, aliases):
 
 
 def r_traverse(idx, rep):
+    _r_traverse(idx, rep)
+    r_wrapper_prefilter(idx, rep)
+
+
+def _r_traverse(idx, rep):
     rule = "R-TRAVERSE"
     rep.rule(rule, "query_overlap pushes BOTH children of every box-overlapping branch, appends an overlapping leaf "
                    "exactly once, applies no other filter; query_overlap_of_other_tree does the same over tree 2 and "
@@ -1191,10 +1196,14 @@ def _num_eval(e, env):
         return [_num_eval(x, env) for x in e.elts]
     if isinstance(e, ast.Subscript):
         v = _num_eval(e.value, env)
-        for ix in index_elts(e):
+        ixs = index_elts(e)
+        if len(ixs) == 2 and isinstance(ixs[0], ast.Slice) and ixs[0].lower is None and ixs[0].upper is None and ixs[0].step is None and not isinstance(ixs[1], ast.Slice):
+            k = _num_eval(ixs[1], env)          # column k of a nested list: X[:, k]
+            if isinstance(k, int) and isinstance(v, list) and all(isinstance(r_, list) for r_ in v):
+                return [r_[k] for r_ in v]
+            raise _NotModelled("index `%s`" % u(e))
+        for ix in ixs:
             if isinstance(ix, ast.Slice):
-                if ix.lower is None and ix.upper is None and ix.step is None:
-                    raise _NotModelled("slice `%s`" % u(e))
                 raise _NotModelled("slice `%s`" % u(e))
             k = _num_eval(ix, env)
             if not isinstance(k, int) or not isinstance(v, list):
@@ -1211,6 +1220,14 @@ def _num_eval(e, env):
             return max(args)
         if short in ("min", "minimum", "fmin") and len(args) == 2 and not any(isinstance(a, list) for a in args):
             return min(args)
+        if short in ("maximum", "fmax", "minimum", "fmin") and len(args) == 2 and cn.startswith(("np.", "numpy.")):
+            return _elementwise(max if short in ("maximum", "fmax") else min, args[0], args[1], e)
+        if short in ("all", "any") and len(args) == 1 and not e.keywords:
+            flat = _flatten(args[0])
+            return all(flat) if short == "all" else any(flat)
+        if short in ("max", "min", "amax", "amin") and len(args) == 1 and not e.keywords and isinstance(args[0], list):
+            flat = _flatten(args[0])
+            return max(flat) if short in ("max", "amax") else min(flat)
         if short in ("abs", "fabs") and len(args) == 1 and not isinstance(args[0], list):
             return abs(args[0])
         if short == "aabb_overlap" and len(args) == 2:
@@ -1219,7 +1236,10 @@ def _num_eval(e, env):
     if isinstance(e, ast.BinOp):
         a, b = _num_eval(e.left, env), _num_eval(e.right, env)
         if isinstance(a, list) or isinstance(b, list):
-            raise _NotModelled("array arithmetic `%s`" % u(e)[:50])
+            fn = {ast.Add: lambda x, y: x + y, ast.Sub: lambda x, y: x - y, ast.Mult: lambda x, y: x * y}.get(type(e.op))
+            if fn is None:
+                raise _NotModelled("array arithmetic `%s`" % u(e)[:50])
+            return _elementwise(fn, a, b, e)
         if isinstance(e.op, ast.Add):
             return a + b
         if isinstance(e.op, ast.Sub):
@@ -1230,6 +1250,8 @@ def _num_eval(e, env):
     if isinstance(e, ast.UnaryOp):
         v = _num_eval(e.operand, env)
         if isinstance(e.op, ast.Not):
+            if isinstance(v, list):
+                raise _NotModelled("truth value of an array `%s`" % u(e)[:50])
             return not v
         if isinstance(e.op, ast.USub) and not isinstance(v, list):
             return -v
@@ -1242,10 +1264,32 @@ def _num_eval(e, env):
         for op, x, y in compare_triples(e):
             a, b = _num_eval(x, env), _num_eval(y, env)
             if isinstance(a, list) or isinstance(b, list):
-                raise _NotModelled("array comparison `%s`" % u(e)[:50])
+                if len(compare_triples(e)) != 1:
+                    raise _NotModelled("chained array comparison `%s`" % u(e)[:50])
+                return _elementwise({"<": lambda p_, q_: p_ < q_, "<=": lambda p_, q_: p_ <= q_, ">": lambda p_, q_: p_ > q_, ">=": lambda p_, q_: p_ >= q_,
+                                     "==": lambda p_, q_: p_ == q_, "!=": lambda p_, q_: p_ != q_}[op], a, b, e)
             out = out and {"<": a < b, "<=": a <= b, ">": a > b, ">=": a >= b, "==": a == b, "!=": a != b}[op]
         return out
     raise _NotModelled("expression `%s`" % u(e)[:50])
+
+
+def _elementwise(fn, a, b, e):
+    """numpy broadcasting of nested lists of equal shape (or a scalar against a list)"""
+    if isinstance(a, list) and isinstance(b, list):
+        if len(a) != len(b):
+            raise _NotModelled("shapes in `%s`" % u(e)[:50])
+        return [_elementwise(fn, x, y, e) for x, y in zip(a, b)]
+    if isinstance(a, list):
+        return [_elementwise(fn, x, b, e) for x in a]
+    if isinstance(b, list):
+        return [_elementwise(fn, a, y, e) for y in b]
+    return fn(a, b)
+
+
+def _flatten(v):
+    if isinstance(v, list):
+        return [y for x in v for y in _flatten(x)]
+    return [v]
 
 
 def _box_grid():
@@ -1262,6 +1306,24 @@ def _box_grid():
                 A[rest[0]], B[rest[0]] = list(o1[0]), list(o1[1])
                 A[rest[1]], B[rest[1]] = list(o2[0]), list(o2[1])
                 yield A, B
+
+
+def r_wrapper_prefilter(idx, rep, rule="R-TRAVERSE"):
+    """the Python methods in front of the compiled traversals (AabbTree.overlaps_aabb / overlaps_aabb_tree): an exit before the query call answers the query
+    without a traversal — same obligation as inside the compiled functions, with the root boxes of the two trees (resp. the query box) as the boxes"""
+    cls = idx.cls(MOD + "::AabbTree")
+    for mname, callee, boxes_of in (("overlaps_aabb", "query_overlap", lambda ps: {"self.get_root_aabb()": "A", "self.aabbs[self.root]": "A", ps[1]: "B"}),
+                                    ("overlaps_aabb_tree", "query_overlap_of_other_tree",
+                                     lambda ps: {"self.get_root_aabb()": "A", "self.aabbs[self.root]": "A", "%s.get_root_aabb()" % ps[1]: "B", "%s.aabbs[%s.root]" % (ps[1], ps[1]): "B"})):
+        f = cls.methods.get(mname)
+        if f is None:
+            raise AnalysisError("AabbTree.%s vanished" % mname)
+        ps = f.params()
+        pivot = [st for st in f.node.body if any(isinstance(c, ast.Call) and (call_name(c) or "").split(".")[-1] == callee for c in ast.walk(st))]
+        if len(pivot) != 1:
+            rep.unknown(rule, f.key + "|no exit before the traversal", f.where, "the call of %s is not a single top-level statement" % callee)
+            continue
+        r_prefilter(idx, rep, f, f.key, pivot[0], "", boxes_of(ps), ["self.root", "%s.root" % ps[1]], rule=rule)
 
 
 def r_prefilter(idx, rep, f, fk, loop, stackname, boxes, sentinels, rule="R-TRAVERSE"):
@@ -1294,11 +1356,18 @@ def r_prefilter(idx, rep, f, fk, loop, stackname, boxes, sentinels, rule="R-TRAV
     defs = {}
     for top in pre:
         for st in ast.walk(top):
-            if isinstance(st, ast.Assign) and len(st.targets) == 1 and isinstance(st.targets[0], ast.Name) and st.targets[0].id != stackname:
-                defs[st.targets[0].id] = st.value
+            if isinstance(st, ast.Assign):
+                for t_, v_ in assign_pairs(st):
+                    if isinstance(t_, ast.Name) and t_.id != stackname:
+                        defs[t_.id] = v_
 
     class Sub(ast.NodeTransformer):
         def visit_Subscript(self, n):
+            if u(n) in boxes:
+                return ast.Name(id="__box" + boxes[u(n)], ctx=ast.Load())
+            return self.generic_visit(n)
+
+        def visit_Call(self, n):
             if u(n) in boxes:
                 return ast.Name(id="__box" + boxes[u(n)], ctx=ast.Load())
             return self.generic_visit(n)
